@@ -356,6 +356,20 @@ func c12SegWorker(args []string) int {
 			if r := lmPostRaw(open, "lm", v, true); r.OK() {
 				fmt.Printf("STORED %d\n", fill)
 			}
+		case "blocks-above", "blocks-noidx-above":
+			// the same label ingestion through POST blocks, with and without index bookkeeping (bulk loading mode)
+			fill := 1000*uint64(n) + 700
+			solid := make([]uint64, 16*16*16)
+			for i := range solid {
+				solid[i] = fill
+			}
+			q := ""
+			if op == "blocks-noidx-above" {
+				q = "?noindexing=true"
+			}
+			if r := vsrv.Post("node/"+open+"/lm/blocks"+q, lmBlockStream(map[[3]int32][]uint64{{1, 0, 0}: solid}, 16)); r.OK() {
+				fmt.Printf("STORED %d\n", fill)
+			}
 		case "newversion":
 			vsrv.Quiesce()
 			vsrv.Commit(open)
@@ -376,7 +390,7 @@ func c12SegWorker(args []string) int {
 }
 
 func c12Histories(c *vlib.Ctx, states, transitions *int64) {
-	alphabet := []string{"nextlabel", "splitsv", "cleave", "ingest-small", "ingest-above", "ingest-huge", "newversion", "restart"}
+	alphabet := []string{"nextlabel", "splitsv", "cleave", "ingest-small", "ingest-above", "ingest-huge", "blocks-above", "blocks-noidx-above", "newversion", "restart"}
 	depth := 3
 	if c.Thorough() {
 		depth = 4
@@ -384,7 +398,7 @@ func c12Histories(c *vlib.Ctx, states, transitions *int64) {
 	var hist [][]string
 	var gen func(p []string, d int)
 	gen = func(p []string, d int) {
-		if len(p) > 0 && p[len(p)-1] != "restart" && p[len(p)-1] != "newversion" && !strings.HasPrefix(p[len(p)-1], "ingest") {
+		if len(p) > 0 && p[len(p)-1] != "restart" && p[len(p)-1] != "newversion" && !strings.HasPrefix(p[len(p)-1], "ingest") && !strings.HasPrefix(p[len(p)-1], "blocks") {
 			hist = append(hist, append([]string{}, p...)) // histories ending in an allocation
 		}
 		if d == 0 {
